@@ -13,6 +13,7 @@ mod run;
 #[path = "../../repo/src/bin/quandaryd/zones.rs"]
 mod zones;
 mod driver;
+mod guard;
 mod props;
 mod qz;
 mod wire;
@@ -85,6 +86,14 @@ fn main() {
         .or_else(|| std::env::var("VERIF_WORKERS").ok())
         .and_then(|s| s.parse().ok())
         .unwrap_or(16);
+    let child = args.iter().any(|a| a == "--child");
+    if args[1] == "check" && !child && std::env::var_os("VERIF_NO_GUARD").is_none() {
+        // guard mode: the check itself runs in a child process (see guard.rs)
+        std::process::exit(guard::check(&args[1..]));
+    }
+    if child {
+        driver::set_status_file(arg_value(&args, "--status-file").as_deref().map(std::path::Path::new));
+    }
     let code = match args[1].as_str() {
         "check" => {
             let id = args.get(2).map(|s| s.as_str()).unwrap_or("");
@@ -111,7 +120,33 @@ fn main() {
                 }
             };
             let id = doc.get("property").and_then(|p| p.as_str()).unwrap_or("").to_string();
-            dispatch!(id.as_str(), replay(&doc, &path)).unwrap_or(2)
+            if doc.get("process_level").and_then(|v| v.as_bool()) == Some(true) {
+                guard::replay(&path, &doc, false)
+            } else {
+                dispatch!(id.as_str(), replay(&doc, &path)).unwrap_or(2)
+            }
+        }
+        "replay-child" => {
+            let path = args.get(2).cloned().unwrap_or_default();
+            let doc: serde_json::Value = std::fs::read_to_string(&path).ok().and_then(|s| serde_json::from_str(&s).ok()).unwrap_or(serde_json::Value::Null);
+            let id = doc.get("property").and_then(|p| p.as_str()).unwrap_or("").to_string();
+            dispatch!(id.as_str(), replay_process_level(&doc)).unwrap_or(2)
+        }
+        "run-one" => {
+            let id = args.get(2).map(|s| s.as_str()).unwrap_or("");
+            let idx: u64 = arg_value(&args, "--idx").and_then(|s| s.parse().ok()).unwrap_or(0);
+            dispatch!(id, run_one(tier, seed, idx)).unwrap_or(2)
+        }
+        "scenario" => {
+            let id = args.get(2).map(|s| s.as_str()).unwrap_or("");
+            let idx: u64 = arg_value(&args, "--idx").and_then(|s| s.parse().ok()).unwrap_or(0);
+            match dispatch!(id, scenario_json(tier, seed, idx)) {
+                Some(v) => {
+                    println!("{}", serde_json::to_string(&v).unwrap_or_default());
+                    0
+                }
+                None => 2,
+            }
         }
         "selftest" => selftest::run(),
         "digest" => {
